@@ -161,5 +161,158 @@ def run(chk, prog):
             want = nsym if nm.endswith("real") else 2 * nsym
             ok = fills[0].args[1] is not None and sp.expand(fills[0].args[1] - want) == 0
         chk.check(ok, "R3", f.where, "%s zero-fills the whole array it returns" % nm, "%s:zero-fill" % nm)
+    # ---- R4: nothing but the work buffers is carried from one request to the next -------------------------------------------------------------
+    # A member that any function outside construction writes is state a later request could see.  For every such member F that is not one
+    # of the FFT buffers (R1) and every writing member function M that reads F: M stores the very cells it reads, before it reads them
+    # and on every path on which it reads them (same index expressions, store not under a condition the read is not under).  A cache
+    # refreshed under a condition (`if (arg != _last) {...}`) fails this: what the request returns depends on what was asked before.
+    setup_sigs = {f_["sig"] for f_ in m.setup}
+    members = [f_ for f_ in prog.functions.values() if f_.get("class") == "vfps::ElectricField" and f_.get("body") and f_.get("kind") not in ("ctor", "dtor")
+               and f_["sig"] not in setup_sigs]
+    MUTATORS = {"resize", "assign", "push_back", "emplace_back", "clear", "insert", "erase", "pop_back", "swap", "fill", "reserve", "shrink_to_fit"}
+    OUT_ARG = {"std::fill_n": 0, "std::fill": 0, "std::copy_n": 2, "std::copy": 2, "std::transform": -1, "memset": 0, "std::memset": 0, "memcpy": 0, "std::memcpy": 0}
+
+    def root_field(n):
+        """field of *this that the lvalue / pointer expression n is rooted in, with the list of subscript texts"""
+        subs = []
+        n = A.strip(n)
+        while isinstance(n, dict):
+            f_ = A.this_field(n)
+            if f_ is not None:
+                return f_, tuple(reversed(subs))
+            k = n.get("k")
+            if k == "ArraySubscriptExpr":
+                subs.append(A.show(A.strip(n["c"][1]))); n = A.strip(n["c"][0]); continue
+            if k == "CXXOperatorCallExpr" and n.get("op") in ("[]", "*") and n.get("args"):
+                if n["op"] == "[]":
+                    subs.append(A.show(A.strip(n["args"][1])))
+                n = A.strip(n["args"][0]); continue
+            if k == "UnaryOperator" and n.get("op") in ("*", "&") and n.get("c"):
+                n = A.strip(n["c"][0]); continue
+            if k == "CXXMemberCallExpr" and (n.get("callee") or "").split("::")[-1] in ("data", "begin", "end", "get", "origin"):
+                n = A.strip(A.call_object(n)); continue
+            if k == "BinaryOperator" and n.get("op") in ("+", "-") and n.get("c"):
+                n = A.strip(n["c"][0]); continue
+            return None, ()
+        return None, ()
+
+    def refs(f_):
+        """[(order, field, subscripts, 'store'|'update'|'read', node)] for one member function"""
+        out, lhs_ids = [], set()
+        for x, lhs, op, rhs in A.assignments_in(f_["body"]):
+            fld, subs = root_field(lhs)
+            if fld is not None:
+                out.append((x["id"], fld, subs, "store" if op == "=" else "update", x))
+                lhs_ids |= {y["id"] for y in A.walk(A.strip(lhs)) if A.this_field(y) == fld}
+        for x in A.walk(f_["body"]):
+            k = x.get("k")
+            if k == "CXXOperatorCallExpr" and x.get("op") in ("=", "+=", "-=", "*=", "/=") and len(x.get("args", [])) == 2:
+                fld, subs = root_field(x["args"][0])
+                if fld is not None:
+                    out.append((x["id"], fld, subs, "store" if x["op"] == "=" else "update", x))
+                    lhs_ids |= {y["id"] for y in A.walk(A.strip(x["args"][0])) if A.this_field(y) == fld}
+            elif k == "UnaryOperator" and x.get("op") in ("++", "--"):
+                fld, subs = root_field(x["c"][0])
+                if fld is not None:
+                    out.append((x["id"], fld, subs, "update", x))
+                    lhs_ids |= {y["id"] for y in A.walk(x["c"][0]) if A.this_field(y) == fld}
+            elif k == "CXXMemberCallExpr" and (x.get("callee") or "").split("::")[-1] in MUTATORS:
+                fld, subs = root_field(A.call_object(x))
+                if fld is not None:
+                    out.append((x["id"], fld, subs, "update", x))
+                    lhs_ids |= {y["id"] for y in A.walk(A.call_object(x)) if A.this_field(y) == fld}
+            elif k == "CallExpr" and x.get("callee") in OUT_ARG and x.get("args"):
+                fld, subs = root_field(x["args"][OUT_ARG[x["callee"]]])
+                if fld is not None:
+                    out.append((x["id"], fld, ("*",), "store", x))
+                    lhs_ids |= {y["id"] for y in A.walk(x["args"][OUT_ARG[x["callee"]]]) if A.this_field(y) == fld}
+        idx_ = A.index(f_)
+        for x in A.walk(f_["body"]):
+            fld = A.this_field(x)
+            if fld is None or x["id"] in lhs_ids or x.get("k") != "MemberExpr":
+                continue
+            # climb to the full subscripted expression this member reference is the root of
+            top, p_ = x, idx_[1].get(x["id"])
+            while p_ is not None and (p_.get("k") in A.TRANSPARENT or p_.get("k") == "ArraySubscriptExpr" and A.strip(p_["c"][0]) is not None and top["id"] in {y["id"] for y in A.walk(p_["c"][0])}
+                                      or p_.get("k") == "CXXOperatorCallExpr" and p_.get("op") == "[]" and top["id"] in {y["id"] for y in A.walk(p_["args"][0])}):
+                top, p_ = p_, idx_[1].get(p_["id"])
+            out.append((x["id"], fld, root_field(top)[1], "read", x))
+        return sorted(out, key=lambda t: t[0])
+
+    R = {f_["sig"]: refs(f_) for f_ in members}
+    handled = set(m.alloc) | set(m.plans)
+    carried = {}
+    for f_ in members:
+        for o_, fld, subs, kind, x in R[f_["sig"]]:
+            if kind in ("store", "update") and fld not in handled:
+                carried.setdefault(fld, set()).add(f_["name"])
+    chk.tables["members_written_outside_construction"] = {k_: sorted(v_) for k_, v_ in sorted(carried.items())}
+    n4 = 0
+    memo_ifs, memo_hits = {}, []
+    # helpers first, so that a refresh found in a helper is known when its callers are judged
+    order_ = sorted(members, key=lambda f__: 0 if not any(y.get("callee_sig") in R for y in A.walk(f__["body"])) else 1)
+    for f_ in order_:
+        rf = R[f_["sig"]]
+        calls_writer = any(y.get("callee_sig") in R and any(k_ in ("store", "update") for _, _, _, k_, _ in R[y["callee_sig"]]) for y in A.walk(f_["body"]))
+        if not any(k_ in ("store", "update") for _, _, _, k_, _ in rf) and not calls_writer:
+            continue                    # a pure reader: it hands out what the last request computed, it computes nothing from it
+        idx_ = A.index(f_)
+        conds = lambda n: [c_["id"] for c_ in A.enclosing(idx_, n, {"IfStmt", "ConditionalOperator", "SwitchStmt"})]
+        loops = lambda n: [c_["id"] for c_ in A.enclosing(idx_, n, {"ForStmt", "WhileStmt", "DoStmt", "CXXForRangeStmt"})]
+        for o_, fld, subs, kind, x in rf:
+            if kind not in ("read", "update") or fld not in carried:
+                continue
+            if kind == "read" and not subs:
+                addr = False
+                for anc in A.enclosing(idx_, x, {"CXXMemberCallExpr"})[:1]:
+                    ob = A.call_object(anc)
+                    addr = ob is not None and A.this_field(ob) == fld and (anc.get("callee") or "").split("::")[-1] in \
+                        ("data", "size", "shape", "begin", "end", "num_elements", "origin", "cbegin", "cend")
+                if not addr:
+                    pass
+                else:
+                    continue            # the container's address / extent, not its contents
+            def same_iteration(st):
+                ls, lx = loops(st), loops(x)          # innermost first; the store's loops must be the outer part of the read's loop nest
+                return not ls or ls == lx[len(lx) - len(ls):]
+            pre = [t for t in rf if t[0] < o_ and t[1] == fld and t[3] == "store" and (t[2] == subs or t[2] == ("*",)) and
+                   set(conds(t[4])) <= set(conds(x)) and same_iteration(t[4])]
+            if not pre:
+                # an exact memo (`if (param != _key) { _key = param; table = f(param); }`, the comparison being the whole condition) does
+                # not make results depend on history provided construction leaves key and table consistent; that equivalence is not decided
+                # here: such code is reported as not analysable, never as a violation.  Any other condition on the refresh is judged.
+                for c_ in A.enclosing(idx_, x, {"IfStmt"}) + [y for w_ in memo_ifs.values() for y in w_]:
+                    t_ = A.strip(c_["cond"])
+                    if t_.get("k") == "BinaryOperator" and t_.get("op") in ("!=", "==") and len(t_.get("c", [])) == 2:
+                        for a_, b_ in ((t_["c"][0], t_["c"][1]), (t_["c"][1], t_["c"][0])):
+                            key_f, par = A.this_field(a_), A.declref(b_)
+                            branch = c_.get("then") if t_["op"] == "!=" else c_.get("else")
+                            if key_f is not None and par is not None and par.get("dkind") == "ParmVar" and branch is not None and \
+                                    any(A.this_field(l_) == key_f and op_ == "=" and (A.declref(r_) or {}).get("decl") == par["decl"]
+                                        for _, l_, op_, r_ in A.assignments_in(branch)):
+                                memo_ifs.setdefault(f_["sig"], []).append(c_)
+                                stored_in_branch = {root_field(l_)[0] for _, l_, _, _ in A.assignments_in(branch)}
+                                if fld == key_f and x["id"] in {y["id"] for y in A.walk(c_["cond"])} or fld in stored_in_branch:
+                                    memo_hits.append("%s (%s, key %s)" % (f_["name"], fld, key_f))
+            if not pre and any(h_.startswith(f_["name"] + " (" + fld) for h_ in memo_hits):
+                continue
+            if not pre:
+                # the refresh may sit in a helper this function calls
+                for y in A.walk(f_["body"]):
+                    if y.get("callee_sig") in memo_ifs and y["id"] < o_:
+                        for c_ in memo_ifs[y["callee_sig"]]:
+                            if fld in {root_field(l_)[0] for _, l_, _, _ in A.assignments_in(c_.get("then") or {})}:
+                                memo_hits.append("%s (%s, refreshed by %s)" % (f_["name"], fld, y["callee"].split("::")[-1]))
+                if any(h_.startswith(f_["name"] + " (" + fld) for h_ in memo_hits):
+                    continue
+            n4 += 1
+            chk.check(bool(pre), "R4", A.loc(f_, x), "%s %s %s%s, which %s can change outside construction: it stores that cell first, on every path, in the same call%s"
+                      % (f_["name"], "reads" if kind == "read" else "updates", fld, "".join("[%s]" % s_ for s_ in subs), sorted(carried[fld]),
+                         "" if pre else " -- NO such store: the value seen is the one an earlier request left"),
+                      "%s:carried:%s" % (f_["name"], fld))
+    chk.floor("R4-carried-member-reads", n4, 2)
+    if memo_hits:
+        raise AnalysisBroken("ElectricField keeps a table keyed on a request parameter (%s): whether the cached and the recomputed table agree for every "
+                             "sequence of requests is not decided by this check" % "; ".join(sorted(set(memo_hits))))
     chk.notes.append("C18: dirty/read/rewrite footprints of every work buffer for every ordered pair of operations "
                      "(updateCSR, wakePotential, padBunchProfiles); accumulation resets; plan/buffer binding only at construction.")
